@@ -389,6 +389,53 @@ def bounded(pr):
             del junk
             if got != ref and len(viol) < 3:
                 viol.append({'what': '%s %s after history %d (%s input): output text differs from a fresh process' % (name, opts, h, kind), 'replay': None})
+    # path vs text stream for content with Windows line ends, bare TER records and no terminal oxygens (the path is opened with
+    # newline translation, a StringIO is not)
+    d4 = tempfile.mkdtemp()
+    try:
+        for nm in ('1HPX', '3SGB-subset'):
+            ev += 1
+            classes.add('crlf path vs stream')
+            ls = []
+            for l in native.pdb_lines(nm):
+                if l[:6] in ('ATOM  ', 'HETATM') and l[12:16] == ' OXT':
+                    continue
+                ls.append('TER' if l.startswith('TER') else l.rstrip('\n'))
+            text = '\r\n'.join(ls) + '\r\n'
+            pth = os.path.join(d4, nm + '.pdb')
+            open(pth, 'w', newline='').write(text)
+            a_ = hashlib.sha256(bounded_text(run.single(pth, optargs=['-q'], write_pka=False)).encode()).hexdigest()
+            b_ = hashlib.sha256(bounded_text(native.run_text(text, [])).encode()).hexdigest()
+            if a_ != b_ and len(viol) < 3:
+                viol.append({'what': '%s with CR LF line ends, bare TER records and no OXT: path input and text-stream input give '
+                                     'different results' % nm, 'replay': None})
+    finally:
+        import shutil
+        shutil.rmtree(d4, ignore_errors=True)
+    # several molecules alive at once, files written later: each file carries ITS molecule's results
+    d3 = tempfile.mkdtemp()
+    try:
+        def body(path):
+            txt = open(path).read()
+            i = txt.find('---------  -----')
+            return txt[i:] if i >= 0 else txt
+        pair = ('1HPX', '3SGB-subset')
+        now = {}
+        for nm in pair:
+            m = native.run_text(native.pdb_lines(nm))
+            m.write_pka(filename=os.path.join(d3, nm + '.now.pka'))
+            now[nm] = body(os.path.join(d3, nm + '.now.pka'))
+        alive = [(nm, native.run_text(native.pdb_lines(nm))) for nm in pair]
+        for nm, m in alive:
+            ev += 1
+            classes.add('deferred write')
+            m.write_pka(filename=os.path.join(d3, nm + '.later.pka'))
+            if body(os.path.join(d3, nm + '.later.pka')) != now[nm] and len(viol) < 3:
+                viol.append({'what': '%s: the .pka file written after another structure was calculated in the same process differs from '
+                                     'the file written right after its own calculation' % nm, 'replay': None})
+    finally:
+        import shutil
+        shutil.rmtree(d3, ignore_errors=True)
     # the same PATH NAME holding other content than the last time it was read in this process (a file rewritten in place)
     d2 = tempfile.mkdtemp()
     try:
